@@ -1,6 +1,6 @@
 import json,sys
 pid=sys.argv[1]
-p=json.load(open(f'/tmp/mut/prop_{pid}.json'))
+p=[json.loads(l) for l in open('/verif/properties.jsonl') if l.strip() and json.loads(l)['id']==pid][0]
 print(f"""You are working in a scratch git worktree of the Go project minekube/gate (module go.minekube.com/gate, a Minecraft reverse proxy) at /tmp/wt/{pid}. The sandbox has NO network. Before every go command run: `export GOFLAGS=-mod=mod GOPROXY=off` (do NOT set GOSUMDB or GOTOOLCHAIN). Work ONLY inside /tmp/wt/{pid} and /tmp/mut/{pid}; never read or write /verif or /repo.
 
 The project is supposed to satisfy this semantic property (id {p['id']}):
